@@ -86,7 +86,7 @@ def Mux.match (m : Mux) (p : Path) : Option Entry :=
   | some e => some e
   | none => matchEs m.es p
 
-/-- `ServeMux.Handler` for a non-CONNECT request: clean, then match;
+/-- `ServeMux.Handler`: clean, then match (CONNECT requests keep their host's port, their path is cleaned like any other);
     `none` = DefaultHandler -/
 def Mux.route (m : Mux) (raw : Path) : Option Entry := m.match (cleanPath raw)
 
